@@ -23,6 +23,7 @@ import (
 	sdk "github.com/cosmos/cosmos-sdk/types"
 
 	"github.com/EscanBE/evermint/v12/rpc/ethereum/pubsub"
+	"github.com/EscanBE/evermint/v12/utils/verifhook"
 	evmtypes "github.com/EscanBE/evermint/v12/x/evm/types"
 )
 
@@ -134,8 +135,10 @@ func (es *EventSystem) subscribe(sub *Subscription) (*Subscription, pubsub.Unsub
 	}
 
 	// wrap events in a go routine to prevent blocking
+	verifhook.At("subscribe", "install", sub.id, sub.event)
 	es.install <- sub
 	<-sub.installed
+	verifhook.At("subscribe", "installed", sub.id)
 
 	eventCh, unsubFn, err := es.eventBus.Subscribe(sub.event)
 	if err != nil {
@@ -227,6 +230,7 @@ func (es *EventSystem) eventLoop() {
 		select {
 		case f := <-es.install:
 			es.indexMux.Lock()
+			verifhook.At("eventLoop", "i.locked", f.id, f.event)
 			es.index[f.typ][f.id] = f
 			ch := make(chan coretypes.ResultEvent)
 			if err := es.eventBus.AddTopic(f.event, ch); err != nil {
@@ -234,10 +238,13 @@ func (es *EventSystem) eventLoop() {
 			} else {
 				es.topicChans[f.event] = ch
 			}
+			verifhook.At("eventLoop", "i.unlock", f.id)
 			es.indexMux.Unlock()
+			verifhook.At("eventLoop", "i.done", f.id)
 			close(f.installed)
 		case f := <-es.uninstall:
 			es.indexMux.Lock()
+			verifhook.At("eventLoop", "u.locked", f.id, f.event)
 			delete(es.index[f.typ], f.id)
 
 			var channelInUse bool
@@ -258,12 +265,15 @@ func (es *EventSystem) eventLoop() {
 				ch, ok := es.topicChans[f.event]
 				if ok {
 					es.eventBus.RemoveTopic(f.event)
+					verifhook.At("eventLoop", "u.close", f.event, ch)
 					close(ch)
 					delete(es.topicChans, f.event)
 				}
 			}
 
+			verifhook.At("eventLoop", "u.unlock", f.id)
 			es.indexMux.Unlock()
+			verifhook.At("eventLoop", "u.done", f.id)
 			close(f.err)
 		}
 	}
@@ -289,6 +299,7 @@ func (es *EventSystem) consumeEvents() {
 
 			es.indexMux.RLock()
 			ch, ok := es.topicChans[ev.Query]
+			verifhook.At("consumeEvents", "lookup", ev.Query, ch, ok)
 			es.indexMux.RUnlock()
 			if !ok {
 				es.logger.Debug("channel for subscription not found", "topic", ev.Query)
@@ -298,10 +309,13 @@ func (es *EventSystem) consumeEvents() {
 
 			// gracefully handle lagging subscribers
 			t := time.NewTimer(time.Second)
+			verifhook.At("consumeEvents", "send", ev.Query, ch)
 			select {
 			case <-t.C:
+				verifhook.At("consumeEvents", "timeout", ev.Query, ch)
 				es.logger.Debug("dropped event during lagging subscription", "topic", ev.Query)
 			case ch <- ev:
+				verifhook.At("consumeEvents", "sent", ev.Query, ch)
 			}
 		}
 
